@@ -204,11 +204,10 @@ theorem lineboxLoop_embed (c : Ctx) (st : PStyle) (b : BoxSt) (n : Nat) (lineH :
 /-! ### `find_earlier_page_break` -/
 
 def embedEarlier (s : PM.EarlierState) : EarlierState :=
-  { found := s.found.map (fun p => (embedFragList p.1, p.2)), prev := s.prev.map embedFrag, err := false }
+  { found := s.found.map (fun p => (embedFragList p.1, p.2)), prev := s.prev.map embedFrag }
 
-def embedEarlierIn : Option (Frag × Resume) → EarlierIn
-  | none => .nothing
-  | some (f, r) => .found (embedFrag f) r
+def embedEarlierIn (o : Option (Frag × Resume)) : Option (CFrag × Resume) :=
+  o.map (fun p => (embedFrag p.1, p.2))
 
 theorem findEarlierPara_embed (id idx : Nat) (st : PStyle) (n : Nat) (g : Geo) (lines : List (Nat × Rat)) :
     findEarlierPara id idx st n g lines =
@@ -227,7 +226,7 @@ theorem findEarlierPara_embed (id idx : Nat) (st : PStyle) (n : Nat) (g : Geo) (
 
 mutual
 theorem findEarlierGo_embed : (fs : List Frag) →
-    findEarlierGo false false (embedFragList fs) = embedEarlier (PM.findEarlierGo fs)
+    findEarlierGo false (embedFragList fs) = embedEarlier (PM.findEarlierGo fs)
   | [] => by simp [embedFragList, findEarlierGo, PM.findEarlierGo, embedEarlier]
   | x :: xs => by
     have ih := findEarlierGo_embed xs
@@ -269,10 +268,7 @@ theorem findEarlierGo_embed : (fs : List Frag) →
 theorem findEarlierFrag_embed : (x : Frag) →
     findEarlierFrag false (embedFrag x) = embedEarlierIn (PM.findEarlierFrag x)
   | .para id idx st n g lines => by
-    simp only [embedFrag, findEarlierFrag, PM.findEarlierFrag, findEarlierPara_embed]
-    cases PM.findEarlierPara id idx st n g lines with
-    | none => rfl
-    | some p => rfl
+    simp only [embedFrag, findEarlierFrag, PM.findEarlierFrag, findEarlierPara_embed, embedEarlierIn]
   | .block id idx st g kids => by
     have ih := findEarlierGo_embed kids
     simp only [embedFrag, findEarlierFrag, PM.findEarlierFrag, ih]
@@ -281,16 +277,12 @@ theorem findEarlierFrag_embed : (x : Frag) →
     | some p => obtain ⟨k, r⟩ := p; simp [embedEarlier, hs, embedEarlierIn, embedFrag]
 end
 
-def embedEarlierList : Option (List Frag × Resume) → EarlierList
-  | none => .nothing
-  | some (k, r) => .found (embedFragList k) r
+def embedEarlierList (o : Option (List Frag × Resume)) : Option (List CFrag × Resume) :=
+  o.map (fun p => (embedFragList p.1, p.2))
 
 theorem findEarlierList_embed (fs : List Frag) :
     findEarlierList false (embedFragList fs) = embedEarlierList (PM.findEarlierList fs) := by
-  simp only [findEarlierList, PM.findEarlierList, findEarlierGo_embed]
-  cases hs : (PM.findEarlierGo fs).found with
-  | none => simp [embedEarlier, hs, embedEarlierList]
-  | some p => obtain ⟨k, r⟩ := p; simp [embedEarlier, hs, embedEarlierList]
+  simp only [findEarlierList, PM.findEarlierList, findEarlierGo_embed, embedEarlier, embedEarlierList]
 
 /-! ### block containers -/
 
